@@ -3,7 +3,8 @@
 import jax.numpy as jnp
 import numpy as np
 
-from vcgen.harness import Contract, Instance, eq, ge, holds
+from vcgen import harness as H, prims
+from vcgen.harness import Contract, Instance, cancel, eq, ge, holds
 
 MOD = "probdiffeq.util.cholesky_util"
 
@@ -52,13 +53,31 @@ def _revert_ensures(result, R_X_F=None, R_X=None, R_YX=None, *, solve_triu=None)
     S = R_YX.T @ R_YX + R_X_F.T @ R_X_F  # marginal covariance of Y
     P = R_X.T @ R_X  # covariance of X
     C = R_X.T @ R_X_F  # Cov(X, Y)
-    return [
+    cl = [
         _upper("R_Y_upper", R_Y),
         _upper("R_XY_upper", R_XY),
         eq("marginal_gram", R_Y.T @ R_Y, S),
         eq("gain_equation", G @ S, C),
-        eq("posterior_gram", R_XY.T @ R_XY, P - G @ S @ G.T),
     ]
+    if _is_lstsq(solve_triu) and not H.assuming():
+        # least-squares gain: G^T solves R_Y^T R_Y G^T = R_Y^T R12 only in the normal-equation sense.  With a
+        # non-singular innovation factor (ghost inverse, inherited precondition) the residual R12 - R_Y G^T
+        # vanishes by left cancellation of R_Y^T; the posterior Gram identity then follows as in the triangular case.
+        import probdiffeq.util.cholesky_util as CU
+
+        k = R_YX.shape[0]
+        R = CU.triu_via_qr(jnp.block([[R_YX, jnp.zeros((k, R_X.shape[1]))], [R_X_F, R_X]]))  # memoised kernel call
+        R12 = R[:k, k:]
+        V = prims.ghost_inverse(R_Y)
+        cl.append(cancel("lstsq_residual_vanishes", R12 - R_Y @ G.T, R_Y.T, V.T))
+    cl.append(eq("posterior_gram", R_XY.T @ R_XY, P - G @ S @ G.T))
+    return cl
+
+
+def _is_lstsq(fn):
+    import probdiffeq.backend.linalg as L
+
+    return fn is L.lstsq_svd
 
 
 def _revert_instances(tier):
@@ -78,6 +97,13 @@ def _revert_instances(tier):
             )
             return (), kw
         out.append(Instance(name=f"n={n},k={k}", make=make))
+    for n, k in nk[: (3 if tier == "quick" else 5)]:
+        def make_ls(rng, n=n, k=k):
+            import probdiffeq.backend.linalg as L
+
+            return (), dict(R_X_F=jnp.asarray(rng.normal(size=(n, k))), R_X=jnp.asarray(rng.normal(size=(n, n))),
+                            R_YX=jnp.asarray(rng.normal(size=(k, k))), solve_triu=L.lstsq_svd)
+        out.append(Instance(name=f"n={n},k={k},lstsq", make=make_ls))
     return out
 
 
@@ -87,8 +113,8 @@ revert_conditional = Contract(
     qualname="revert_conditional",
     ensures=_revert_ensures,
     instances=_revert_instances,
-    inherits=("solve_triu#",),
-    doc="(R_Y, (R_XY, G)): R_Y^T R_Y = S, G S = Cov(X,Y), R_XY^T R_XY = P - G S G^T (inverse-free)",
+    inherits=("solve_triu#", "ghost_inverse#"),
+    doc="(R_Y, (R_XY, G)): R_Y^T R_Y = S, G S = Cov(X,Y), R_XY^T R_XY = P - G S G^T (inverse-free); also with the least-squares gain (solve_triu=lstsq_svd) for a non-singular innovation factor",
 )
 
 ALL = [sum_of_sqrtm_factors, revert_conditional]
